@@ -99,3 +99,43 @@ Definition canonical : list gcls := [
   cls_Observer0DGroup; cls_SightLineGroup; cls_FibreOpticGroup; cls_PixelGroup; cls_TargettedPixelGroup;
   cls_SpectroscopicObserver0DGroup; cls_SpectroscopicFibreOpticGroup; cls_SpectroscopicSightLineGroup;
   cls_BolometerCamera ].
+
+(* ---- the member-related METHODS of the classes ------------------------------------------------- *)
+(* Each constructor names one method body of the unchanged tree (frozen copy in
+   harness/c15_translate.py: METHOD_TEMPLATES) and the part of the model that mirrors it:
+     MInit0D             base.py:55-60        construction = a loop of add_observer      (exec of OAdd ..)
+     MInitSpectroscopic  spectroscopic.py:46  passes observers= on to MInit0D
+     MInitBolometer      bolometry.py:74-85   empty foil list (+ camera geometry, not modelled)
+     MGetitem0D          base.py:62-80        getitem_0d
+     MGetitemBolometer   bolometry.py:103-124 getitem_bolo
+     MLen0D / MLenBolometer                   step OLen
+     MIterBolometer      bolometry.py:92-101  iterate, FBolometer branch (MAbsent: iteration through
+                                              __getitem__, FObserver0D branch)
+     MAdd0D              base.py:103-108      step OAdd, add_err = EValue
+     MAddAlias           spectroscopic.py:57  add_sight_line = add_observer
+     MAddBolometer       bolometry.py:158-178 step OAdd, add_err = EType
+     MObserve0D / MObserveBolometer           step OObserve (the camera also returns the foil readings)
+   The table below says which body each class resolves to; Gen/C15/Tie_methods.v re-checks on every run
+   that the source still has exactly these bodies. *)
+Inductive mshape :=
+| MInit0D | MInitSpectroscopic | MInitBolometer | MGetitem0D | MGetitemBolometer | MLen0D | MLenBolometer
+| MIterBolometer | MAdd0D | MAddAlias | MAddBolometer | MObserve0D | MObserveBolometer | MAbsent | MCustom.
+
+Definition methods_0d (init : mshape) (alias : mshape) : list (string * mshape) := [
+  ("__init__", init); ("__getitem__", MGetitem0D); ("__len__", MLen0D); ("__iter__", MAbsent);
+  ("add_observer", MAdd0D); ("add_sight_line", alias); ("add_foil_detector", MAbsent); ("observe", MObserve0D) ].
+
+Definition methods_bolometer : list (string * mshape) := [
+  ("__init__", MInitBolometer); ("__getitem__", MGetitemBolometer); ("__len__", MLenBolometer);
+  ("__iter__", MIterBolometer); ("add_observer", MAbsent); ("add_sight_line", MAbsent);
+  ("add_foil_detector", MAddBolometer); ("observe", MObserveBolometer) ].
+
+Definition is_spectroscopic (c : gcls) : bool :=
+  existsb (fun d => String.eqb (d_name d) "sight_lines") (c_table c).
+
+(* the method bodies a class of the model stands for *)
+Definition methods_of (c : gcls) : list (string * mshape) :=
+  match c_flavour c with
+  | FBolometer => methods_bolometer
+  | FObserver0D => if is_spectroscopic c then methods_0d MInitSpectroscopic MAddAlias else methods_0d MInit0D MAbsent
+  end.
